@@ -109,3 +109,71 @@ for _seen in (True, False):
         raises={"InvalidFramework": "True" if _seen else "False"}, raises_props=["C18"],
         ensures=[("C18.an_accepted_display_name_is_new_and_now_recorded", "%s and 'y' in tmp and len(tmp) == 2" % ("False" if _seen else "True"))],
         defined_props=["C18"])
+
+
+# ---- the denominator rules of a characteristic (C18: "missing required data"; C07 needs the denominator's own databook value to initialise a
+# fraction): the statement `if not pd.isna(row["denominator"]): ...` of the loop over characteristics in _validate_characteristics.
+# A characteristic with a denominator is refused exactly when the denominator is unknown, of another population type, itself has a
+# denominator (characteristics), or -- if the characteristic is used for initialization (setup weight > 0) -- the DENOMINATOR has no
+# databook page.  The framework sheets are ghosts.
+def _env_denominator(it):
+    from pyvc.interp import PyObjV
+    from pyvc import source
+
+    import z3
+
+    w = z3.Real("setup_weight")
+    return {"self": PyObjV("ProjectFramework", source.load("framework"), {"name": "fw"}), "charac_name": "frac", "row": {"denominator": "den", "population type": "default", "setup weight": w, "databook page": "sheet"}, "W": w}
+
+
+_den_stubs = {
+    "pd.isna(row['denominator'])": "NO_DENOMINATOR",
+    "row['denominator'] in self.comps.index": "DEN_IS_COMP", "row['denominator'] in self.characs.index": "DEN_IS_CHARAC",
+    "row['population type'] != self.comps.at[row['denominator'], 'population type']": "COMP_TYPE_DIFFERS",
+    "row['population type'] != self.characs.at[row['denominator'], 'population type']": "CHARAC_TYPE_DIFFERS",
+    "pd.isna(self.comps.at[row['denominator'], 'databook page'])": "COMP_DEN_NOT_IN_DATABOOK",
+    "pd.isna(self.characs.at[row['denominator'], 'databook page'])": "CHARAC_DEN_NOT_IN_DATABOOK",
+    "pd.isna(self.characs.loc[row['denominator']]['denominator'])": "CHARAC_DEN_IS_PLAIN",
+    "pd.isna(row['databook page'])": "OWN_PAGE_MISSING",
+}
+_refused = ("(DEN_IS_COMP and (COMP_TYPE_DIFFERS or (W > 0 and COMP_DEN_NOT_IN_DATABOOK))) or "
+            "(not DEN_IS_COMP and DEN_IS_CHARAC and (CHARAC_TYPE_DIFFERS or not CHARAC_DEN_IS_PLAIN or (W > 0 and CHARAC_DEN_NOT_IN_DATABOOK))) or "
+            "(not DEN_IS_COMP and not DEN_IS_CHARAC)")
+CONTRACTS["framework:ProjectFramework._validate_characteristics#denominator_rules"] = dict(
+    schema=schema, fragment={"iter": "zip(self.characs.index, self.characs.to_dict(orient='records'))", "stmt": "if not pd.isna(row['denominator'])"}, make_env=_env_denominator,
+    ghost_params=dict({v: "bool" for v in _den_stubs.values() if v != "NO_DENOMINATOR"}, NO_DENOMINATOR="const:False"),
+    stubs=_den_stubs,
+    raises={"InvalidFramework": _refused}, raises_props=["C18", "C07"],
+    ensures=[("C18+C07.an_accepted_denominator_is_known_of_the_same_type_plain_and_in_the_databook_when_used_for_initialization", "not (%s)" % _refused)],
+    defined_props=["C18", "C07"])
+
+
+def _replay_denominator(model, contract):
+    """replay on the REAL udt library framework: the characteristic `all_tx` is given the compartment `dx` as denominator and a setup weight,
+    and `dx` is taken out of the databook -- the rule "denominators used in initialization must appear in the databook" must refuse it"""
+    import logging
+    import warnings
+
+    import numpy as np
+    import atomica as at
+
+    warnings.filterwarnings("ignore")
+    at.logger.setLevel(logging.ERROR)
+    F = at.demo("udt", do_run=False).framework
+    comp = [c for c in F.comps.index if F.comps.at[c, "is source"] != "y" and F.comps.at[c, "is sink"] != "y" and F.comps.at[c, "is junction"] != "y"][0]
+    charac = [c for c in F.characs.index if not (isinstance(F.characs.at[c, "denominator"], str))][0]
+    F.characs.at[charac, "denominator"] = comp
+    F.characs.at[charac, "setup weight"] = 1.0
+    F.comps.at[comp, "databook page"] = None
+    F.comps.at[comp, "setup weight"] = 0.0
+    pre = dict(framework="udt", characteristic=charac, denominator=comp, denominator_databook_page=None, characteristic_databook_page=str(F.characs.at[charac, "databook page"]))
+    try:
+        F._validate_characteristics()
+    except at.InvalidFramework as e:
+        return dict(verdict="holds", detail="refused with InvalidFramework: %s" % str(e)[:140], prestate=pre)
+    except Exception as e:  # noqa
+        return dict(verdict="violates", detail="internal error %s: %s" % (type(e).__name__, e), prestate=pre)
+    return dict(verdict="violates", detail="a characteristic used for initialization whose denominator compartment has no databook page was accepted", prestate=pre)
+
+
+CONTRACTS["framework:ProjectFramework._validate_characteristics#denominator_rules"]["replay_hook"] = _replay_denominator
